@@ -10,6 +10,17 @@ def run(ctx):
     inputs = common.dedup(common.finding_witnesses(findings) + common.corpus_inputs() +
                           common.random_scripts(seed, nrandom, mutate=mutate, unsupported=0.05))
     core = list(gen.exhaustive(maxlen))
+    # sizes: very long tokens and digit runs (Python's int() refuses more than 4300 digits), long flat lists
+    big = ['1' * 5000, 'a ' + '1' * 4301 + '>f', 'a >&' + '9' * 4400, 'a <&' + '0' * 4301 + '-', 'a' * 8000, '"' + 'b' * 8000 + '"', "'" + 'c ' * 5000 + "'",
+           'a ' * 3000, 'a;' * 1500, 'a |' * 600 + 'b', 'x=' + '1' * 6000, '$' + 'v' * 6000, '${' + 'v' * 6000 + '}', 'a #' + 'c' * 10000, 'a <<E\n' + 'x\n' * 3000 + 'E\n']
+    # "all Unicode strings": characters outside ASCII in every token position (the model is exact on ASCII only: for these
+    # inputs only the implementation's outcome class is judged, there is no correspondence to compare)
+    uni = []
+    for ch in ['\u00b2', '\u2460', '\u0663', '\u00e9', '\u00a0', '\u2003', '\u0301', '\u05d0', '\u4e2d', '\U0001f600', '\u200b', '\ufeff', '\x85', '\x7f', '\x00', '\x1b', '\r']:
+        for tmpl in ['%s', '%s>f', 'a %s<b', 'a >&%s', 'a 1%s>f', '%s=1', 'a=%s', '$%s', '${%s}', '"%s"', "'%s'", '%s() { a; }', 'for %s in a; do b; done', 'a <<%s\nb\n%s\n',
+                     'case %s in %s) a;; esac', '`%s`', '$(a %s)', 'a # %s', 'a %s\\\n', 'a\\%s', '~%s', 'a $(b %s>f)', 'a <(%s)', 'a;%s;b']:
+            uni.append(tmpl.replace('%s', ch))
+    core = core + big + uni
     if ctx.get('replay'):
         import json
         inputs = [json.load(open(ctx['replay']))['input']]; core = []
@@ -36,8 +47,8 @@ def run(ctx):
     for (req, i, m, it, mt) in runner.run_all(reqs):
         c = runner.outcome_class(i)
         classes[c] += 1
-        if c != runner.outcome_class(m):
-            corr_broken.append(dict(request=[req[0], req[1], req[2]], impl=i[:300], model=m[:300]))
+        if c != runner.outcome_class(m) and all(ord(ch) < 128 and ch != '\x00' for ch in req[2]):
+            corr_broken.append(dict(request=[req[0], req[1], req[2][:2000]], impl=i[:300], model=m[:300]))
         if c == 'timeout':
             timeouts.append((req, m)); continue
         if c.startswith('foreign:') or c in ('timeout', 'other'):
